@@ -69,8 +69,8 @@ def make_req_case(run, kind, stuck=False):
 
 def run(ctx):
     build = leanbuild.ensure(PROPERTY, THEOREMS, thorough=ctx.thorough, extractors=['Conn'])
-    scale = 12 if ctx.thorough else 1
-    cases = explore(ctx, 500 * scale, 400 * scale, 700 * scale)
+    scale = 10 if ctx.thorough else 1
+    cases = explore(ctx, 2000 * scale, 1600 * scale, 2500 * scale)
     if build.driver_ok:
         c08.fill_model(cases, PROPERTY)
     def search(disagreements, broken):
